@@ -37,6 +37,7 @@ package ecs
 //@   serves C04 C05 C16
 //@   ensures  inv: tidsInv(t)
 //@   ensures  empty: len(t.tables) == 0 && (forall j tableID :: !tidsHas(t, j))
+//@   ensures  backing: __samearray(t.tables, old(t.tables))
 
 // AddTable indexes a table that is not listed by the archetype yet: in the list of active tables
 // and, for each relation column, under the column's target. A table with two relation columns
@@ -70,3 +71,17 @@ package ecs
 //@   ensures  map: result.indices != nil && __fresh(result.indices)
 //@   ensures  fwd: forall k int :: 0 <= k && k < len(tables) ==> __has(result.indices, tables[k]) && int(result.indices[tables[k]]) == k
 //@   ensures  bwd: forall id tableID :: __has(result.indices, id) ==> int(result.indices[id]) < len(tables) && tables[result.indices[id]] == id
+
+// FreeAllTables (archetype.Reset, C16): every active table becomes a free table; afterwards the
+// list of free tables and the (now empty) list of active tables do not share memory, so tables
+// recycled later cannot overwrite pending free-list entries.
+//@ func (*archetype).FreeAllTables
+//@   serves C16 C04
+//@   requires a.archetypeData != nil && storage != nil && __disjoint(a.freeTables, a.tables.tables) && uint64(len(a.freeTables)) + uint64(len(a.tables.tables)) < 1<<32
+//@   requires forall k int :: 0 <= k && k < len(a.tables.tables) ==> int(a.tables.tables[k]) < len(storage.tables)
+//@   loop 1 invariant done: forall k int :: 0 <= k && k < __idx ==> storage.tables[a.tables.tables[k]].isFree
+//@   ensures  freed: forall k int :: 0 <= k && k < old(len(a.tables.tables)) ==> storage.tables[old(a.tables.tables[k])].isFree
+//@   ensures  listed: len(a.freeTables) == old(len(a.freeTables)) + old(len(a.tables.tables)) && (forall k int :: 0 <= k && k < old(len(a.tables.tables)) ==> a.freeTables[old(len(a.freeTables)) + k] == old(a.tables.tables[k]))
+//@   ensures  kept: forall k int :: 0 <= k && k < old(len(a.freeTables)) ==> a.freeTables[k] == old(a.freeTables[k])
+//@   ensures  empty: len(a.tables.tables) == 0
+//@   ensures  separate: __disjoint(a.freeTables, a.tables.tables)
